@@ -20,7 +20,7 @@ type C34Case struct {
 	Graph      GraphSpec `json:"graph"`
 	Par        int       `json:"par"`
 	Panics     []int     `json:"panics,omitempty"` // nodes that panic once ("until faults stop")
-	Concurrent bool      `json:"concurrent"`       // two clients each issue one Run (else one client, two Runs in sequence)
+	Concurrent bool      `json:"concurrent"`       // one client per root set, one Run each (else one client, two Runs in sequence)
 	Roots      [][]int   `json:"roots"`            // roots of the first and second Run
 	Sched      Sched     `json:"sched"`
 }
@@ -33,6 +33,9 @@ func genC34(t *rapid.T) C34Case {
 	}
 	c.Concurrent = rapid.IntRange(0, 3).Draw(t, "concurrent") == 0
 	c.Roots = [][]int{genRoots(t, c.Graph.N), genRoots(t, c.Graph.N)}
+	if c.Concurrent && rapid.IntRange(0, 1).Draw(t, "third") == 0 {
+		c.Roots = append(c.Roots, genRoots(t, c.Graph.N))
+	}
 	c.Sched = Sched{Tape: genTape(t, 400), Disabled: genDisabled(t, incrOptional)}
 	return c
 }
@@ -148,8 +151,24 @@ func execC34(t *testing.T, c C34Case) *Verdict {
 			return
 		}
 		if len(w.thrown) > 0 || anyPanicPlanned && w.concurrentPanicPossible {
-			// Results computed around an earlier or concurrent panic are not judged
-			// (only termination, panic reporting, non-caching and permits are).
+			// Around an earlier or concurrent panic a query may legitimately carry
+			// a propagated cancellation error. What is never acceptable is a
+			// result without an error that is not the right value.
+			cache := map[int]int64{}
+			for i, r := range rr.roots {
+				res := rr.results[i]
+				if res.Fatal != nil {
+					continue
+				}
+				if closureHasCycle(w, r) {
+					w.fail(viol("C34/cycle-not-reported", "run %d: the dependencies of query %d contain a cycle but it succeeded with value %d", rr.tag, r, res.Value))
+					return
+				}
+				if want := w.modelValue(r, cache); res.Value != want {
+					w.fail(viol("C34/wrong-value-without-error", "run %d (around a panic in another query): query %d returned %d with no error, a fresh computation gives %d", rr.tag, r, res.Value, want))
+					return
+				}
+			}
 			sim.S().Probe("run:ok-after-panic")
 			return
 		}
@@ -183,7 +202,7 @@ func execC34(t *testing.T, c C34Case) *Verdict {
 	var clients []sim.Client
 	if c.Concurrent {
 		w.concurrentPanicPossible = true
-		for i := 0; i < 2; i++ {
+		for i := range c.Roots {
 			i := i
 			clients = append(clients, sim.Client{Name: fmt.Sprintf("c%d", i), Fn: func() {
 				sim.Yield("h.op", "")
@@ -222,7 +241,7 @@ func execC34(t *testing.T, c C34Case) *Verdict {
 			}
 		}})
 	}
-	out := sim.RunBubble(t, incrBubbleCfg(&c.Sched, w, incrBudget(&c.Graph, 2)), clients, nil)
+	out := sim.RunBubble(t, incrBubbleCfg(&c.Sched, w, incrBudget(&c.Graph, 3)), clients, nil)
 	st := sim.S()
 	st.Sample(c, 3)
 	cyc := false
